@@ -6,7 +6,7 @@
 // every listed permutation.
 //
 // input (fields separated by one space, all numbers hex):
-//   vb <auths|-> <base> <parents|-> <headers|-> <fblk> <fnum> <tblk> <tnum> <round> <setid> <precommits|-> <perms|->
+//   vb <auths|-> <base> <parents|-> <headers|-> <fblk> <fnum> <tblk> <tnum> <round> <setid> <precommits|-> <perms|-> [<salt>]
 //     auths       key indices of the authority list returned by GrandpaState.GetAuthorities, in this
 //                 order (a repeated index is a repeated authority: its weight is summed)
 //     the other fields are those of the `vj` cases of part 2 (harness_cg_test.go)
@@ -93,8 +93,12 @@ func c19LClass(err error) string {
 
 func c19LRun(in string) string {
 	f := strings.Split(in, " ")
-	if f[0] != "vb" || len(f) != 13 {
+	if f[0] != "vb" || (len(f) != 13 && len(f) != 14) {
 		return "err:badinput"
+	}
+	salt := uint64(0)
+	if len(f) == 14 {
+		salt = vu.UnX(f[13])
 	}
 	tree := c19Tree{base: vu.UnX(f[2]), parents: c19Ints(f[3])}
 	m := len(tree.parents) + 1
@@ -148,7 +152,7 @@ func c19LRun(in string) string {
 			parent = hh[tree.parents[i-1]]
 		}
 		tag := make([]byte, 32)
-		tag[0], tag[1] = byte(i+1), 0xc1
+		tag[0], tag[1], tag[2], tag[3] = byte(i+1), 0xc1, byte(salt), byte(salt>>8)
 		hs[i] = generic.NewHeader[uint32, hash.H256, runtime.BlakeTwo256](uint32(tree.num(i)), hash.H256(string(tag)),
 			hash.H256(strings.Repeat("\x00", 32)), parent, runtime.Digest{})
 		hh[i] = hs[i].Hash()
@@ -227,6 +231,26 @@ func c19LRun(in string) string {
 
 func c19LGen(r *vu.RNG, n int, emit func(string)) {
 	for i := 0; i < n; i++ {
+		if i%6 == 5 { // the nested-fork family: the heavy voter is an authority listed several times
+			c := c19GenNested(r)
+			var auths []int
+			for _, iw := range strings.Split(c.weights, ",") {
+				p := strings.Split(iw, ":")
+				for k := uint64(0); k < vu.UnX(p[1]); k++ {
+					auths = append(auths, int(vu.UnX(p[0])))
+				}
+			}
+			q := c19Shuffle(r, len(auths))
+			a2 := make([]int, len(auths))
+			for k, j := range q {
+				a2[k] = auths[j]
+			}
+			pcs := c.pcString(func(int) string { return "v" })
+			emit(fmt.Sprintf("vb %s %s %s %s %s %s %s %s %s %s %s %s %s", c19Join(a2), vu.X(c.tree.base), c19Join(c.tree.parents),
+				c19Join(c.headers), vu.X(uint64(c.tblk)), vu.X(c.tnum), vu.X(uint64(c.tblk)), vu.X(c.tnum),
+				vu.X(uint64(1+r.Intn(3))), vu.X(uint64(r.Intn(3))), pcs, c19GenPerms(r, len(c.pcs)), vu.X(c.salt)))
+			continue
+		}
 		c := c19GenCommit(r)
 		// the authority list: every voter once, in a random order, sometimes one of them repeated
 		auths := c19Shuffle(r, c.nv)
